@@ -530,6 +530,7 @@ func ruleJSN3(c *Ctx) {
 		})
 		c.Check(guarded, construct, p.InstrPos(call), "'f' rendering under a magnitude bound <= 2^53", "format 'f' prints an integral number of any magnitude in plain digits, an integer literal. From 2^53 on a float64 no longer holds every integer and the shortest digits are not the number that was meant ({\"eq\":[\"A.ID\",1541815603606036480]} becomes A.ID == 1541815603606036500, compared exactly); from 2^63 on the builder rejects the literal. Such numbers have to stay float literals")
 	}
+	jsn3Digits(c, numFns)
 	descQuoted := false
 	for _, ci := range callsIn(pr) {
 		call, ok := ci.(*ssa.Call)
@@ -1041,14 +1042,23 @@ func ruleJSN8(c *Ctx) {
 			loops := naturalLoops(fn)
 			for _, ci := range callsIn(fn) {
 				cn := calleeName(ci)
-				if cn != "encoding/json.Unmarshal" && cn != "(*encoding/json.Decoder).Decode" {
-					continue
-				}
 				in := ci.(ssa.Instruction)
 				args := ci.Common().Args
-				target := args[len(args)-1]
+				var target ssa.Value
+				if cn == "encoding/json.Unmarshal" || cn == "(*encoding/json.Decoder).Decode" {
+					target = args[len(args)-1]
+				} else if idx := decodeHelperParam(ci.Common().StaticCallee()); idx >= 0 && idx < len(args) {
+					// a helper of the module that hands its parameter to the decoder: the call of the helper is the decode site
+					target = args[idx]
+					cn = fnName(ci.Common().StaticCallee())
+				} else {
+					continue
+				}
 				if mi, ok := target.(*ssa.MakeInterface); ok {
 					target = mi.X
+				}
+				if _, isPrm := unspill(target).(*ssa.Parameter); isPrm && decodeHelperParam(fn) >= 0 {
+					continue // inside the helper itself: judged at its call sites
 				}
 				n++
 				construct := fmt.Sprintf("%s / %s decodes into a fresh value", fnName(fn), cn)
@@ -1177,7 +1187,7 @@ func ruleJSN9(c *Ctx) {
 // jsn4WholeInput: the JSON text is decoded as a whole. json.Unmarshal refuses anything after the first value;
 // (*json.Decoder).Decode reads one value and leaves the rest unread, so `{rule}{rule}` or `{rule}]` would be accepted
 // as its first rule. A Decode in the translator package has to be followed, on every path to a success return, by a
-// look at what is left (More, Token, another Decode or Buffered on the same decoder).
+// look at what is left (Token, another Decode or Buffered on the same decoder; More() answers false before a stray `]`).
 func jsn4WholeInput(c *Ctx) {
 	p := c.P
 	nUnmarshal, nDecode := 0, 0
@@ -1208,7 +1218,7 @@ func jsn4WholeInput(c *Ctx) {
 					return false
 				}
 				switch c2.Common().StaticCallee().Name() {
-				case "More", "Token", "Decode", "Buffered":
+				case "Token", "Decode", "Buffered": // More() answers false before a stray `]` or `}`
 					return true
 				}
 				return false
@@ -1217,9 +1227,164 @@ func jsn4WholeInput(c *Ctx) {
 			if t != nil {
 				c.Fail(fnName(fn)+" / a streaming decode is followed by a look at the rest of the input", p.InstrPos(ci), "(*json.Decoder).Decode reads one value and ignores what follows: several rule objects back to back, or a rule followed by a stray `]`, are accepted as the first rule alone instead of being rejected as malformed", pathString(p, path)...)
 			} else {
-				c.OK(fnName(fn)+" / a streaming decode is followed by a look at the rest of the input", p.InstrPos(ci), "More/Token/Decode/Buffered on the same decoder on every path to a success return")
+				c.OK(fnName(fn)+" / a streaming decode is followed by a look at the rest of the input", p.InstrPos(ci), "Token/Decode/Buffered on the same decoder on every path to a success return")
 			}
 		}
 	}
 	c.Check(nUnmarshal+nDecode > 0, "pkg / JSON texts are decoded as a whole", "pkg/JsonResource.go", fmt.Sprintf("%d json.Unmarshal (refuses trailing data), %d streaming decodes examined", nUnmarshal, nDecode), "no JSON decoding call found in the translator package")
+}
+
+
+// jsn3Digits (D28b, D36): a number written as an integer in the JSON text keeps its digits. encoding/json decodes a number
+// into float64 unless the decoder is told to keep the text (UseNumber), and from 2^53 on a float64 is another integer
+// than the one written (an identifier compared with ==, a modulus). So (a) every decode of a JSON rule text happens on a
+// decoder on which UseNumber was called before, and json.Unmarshal is not used for it; (b) in a function that formats a
+// json.Number, the conversion to float64 happens only behind the failure edge of strconv.ParseInt on the number's
+// text, and what is returned where ParseInt succeeded is its result written by FormatInt, or the text itself.
+func jsn3Digits(c *Ctx, fns []*ssa.Function) {
+	p := c.P
+	seen := map[*ssa.Function]bool{}
+	nDecode, nFormat := 0, 0
+	isJSONNumber := func(t types.Type) bool { return isNamed(t, "encoding/json", "Number") }
+	for _, fn := range fns {
+		if seen[fn] || fn.Blocks == nil {
+			continue
+		}
+		seen[fn] = true
+		for _, ci := range callsIn(fn) {
+			name := calleeName(ci)
+			switch name {
+			case "encoding/json.Unmarshal":
+				nDecode++
+				c.Fail(fnName(fn)+" / the rule text is decoded with its numbers kept as written", p.InstrPos(ci.(ssa.Instruction)), "json.Unmarshal decodes numbers into float64: {\"eq\":[\"A.ID\",1541815603606036481]} is translated to another integer (or, with the magnitude bound of the formatter, to a float literal that also matches the neighbouring ids). Decode with a json.Decoder after UseNumber()")
+			case "(*encoding/json.Decoder).Decode":
+				nDecode++
+				dec := ci.Common().Args[0]
+				kept := false
+				for _, c2 := range callsIn(fn) {
+					if calleeName(c2) == "(*encoding/json.Decoder).UseNumber" && c2.Common().Args[0] == dec {
+						i2, i1 := c2.(ssa.Instruction), ci.(ssa.Instruction)
+						if (i2.Block() == i1.Block() && instrIndex(i2) < instrIndex(i1)) || (i2.Block() != i1.Block() && i2.Block().Dominates(i1.Block())) {
+							kept = true
+						}
+					}
+				}
+				c.Check(kept, fnName(fn)+" / the rule text is decoded with its numbers kept as written", p.InstrPos(ci.(ssa.Instruction)), "UseNumber() on the same decoder before Decode", "the decoder turns numbers into float64 (no UseNumber before Decode): integers beyond 2^53 lose their digits before the translator sees them")
+			}
+		}
+		// (b) formatters of json.Number
+		var num *ssa.Parameter
+		for _, prm := range fn.Params {
+			if isJSONNumber(prm.Type()) {
+				num = prm
+			}
+		}
+		if num == nil {
+			continue
+		}
+		nFormat++
+		textOf := func(v ssa.Value) bool { // the number's text: number.String() or string(number)
+			v = unspill(v)
+			if call, ok := v.(*ssa.Call); ok && calleeName(call) == "(encoding/json.Number).String" && len(call.Call.Args) == 1 && unspill(call.Call.Args[0]) == ssa.Value(num) {
+				return true
+			}
+			if cv, ok := v.(*ssa.ChangeType); ok && unspill(cv.X) == ssa.Value(num) {
+				return true
+			}
+			if cv, ok := v.(*ssa.Convert); ok && unspill(cv.X) == ssa.Value(num) {
+				return true
+			}
+			return false
+		}
+		var parse *ssa.Call
+		for _, ci := range callsIn(fn) {
+			if call, ok := ci.(*ssa.Call); ok && calleeName(call) == "strconv.ParseInt" && textOf(call.Call.Args[0]) {
+				if b, okb := constInt(call.Call.Args[2]); okb && b == 64 {
+					parse = call
+				}
+			}
+		}
+		construct := fnName(fn) + " / a number written as an integer keeps its digits"
+		if parse == nil {
+			c.Fail(construct, p.Pos(fn.Pos()), "the text of the json.Number is not tried as a 64-bit integer (strconv.ParseInt(text, _, 64)) before anything else: every number goes through float64 and integers beyond 2^53 come out as other integers")
+			continue
+		}
+		errVals := resultValues(parse, 1)
+		failedEdge := func(b *ssa.BasicBlock, si int) bool {
+			iff, isIf := b.Instrs[len(b.Instrs)-1].(*ssa.If)
+			if !isIf {
+				return false
+			}
+			kind, sNil, ok := condOn(iff.Cond, func(x ssa.Value) bool {
+				for _, e := range errVals {
+					if x == e {
+						return true
+					}
+				}
+				return false
+			})
+			return ok && kind == "nil" && si == 1-sNil
+		}
+		bad := ""
+		for _, ci := range callsIn(fn) {
+			name := calleeName(ci)
+			toFloat := name == "(encoding/json.Number).Float64" || (name == "strconv.ParseFloat" && textOf(ci.Common().Args[0]))
+			if toFloat && !edgesDominate(fn, ci.(ssa.Instruction), failedEdge) {
+				bad = "the number is converted to float64 at " + p.InstrPos(ci.(ssa.Instruction)) + " on a path on which ParseInt did not fail"
+			}
+		}
+		// where ParseInt succeeded the result is its value (FormatInt) or the text
+		okEdge := func(b *ssa.BasicBlock, si int) bool { return failedEdge(b, 1-si) && len(b.Succs) == 2 }
+		_ = okEdge
+		for _, r := range returnsOf(fn) {
+			if returnsNonNilError(r) || len(r.Results) == 0 {
+				continue
+			}
+			if edgesDominate(fn, r, failedEdge) {
+				continue // the float side, policed by the magnitude clause above
+			}
+			res := unspill(r.Results[0])
+			good := textOf(res)
+			if call, ok := res.(*ssa.Call); ok && calleeName(call) == "strconv.FormatInt" {
+				for _, v := range resultValues(parse, 0) {
+					if call.Call.Args[0] == v {
+						good = true
+					}
+				}
+			}
+			if !good && bad == "" {
+				bad = "where ParseInt succeeded the literal returned at " + p.InstrPos(r) + " is neither strconv.FormatInt of its result nor the number's text"
+			}
+		}
+		c.Check(bad == "", construct, p.InstrPos(parse), "float64 only behind the failure edge of ParseInt(text, _, 64); its result written by FormatInt", bad+": {\"eq\":[\"A.ID\",1541815603606036481]} would be translated to A.ID == 1541815603606036500 or to a float literal that matches the neighbouring ids as well")
+	}
+	c.Check(nDecode > 0 && nFormat > 0, "pkg / JSON numbers: decode sites and formatters of json.Number examined", "pkg/JsonResource.go", fmt.Sprintf("%d decode sites, %d formatters", nDecode, nFormat), fmt.Sprintf("%d decode sites and %d functions formatting a json.Number on the translation path: numbers of a JSON text reach the translator as float64", nDecode, nFormat))
+}
+
+
+// decodeHelperParam: f is a module function that hands one of its parameters to json.Unmarshal / Decoder.Decode as the
+// target; returns the parameter's index (-1 otherwise).
+func decodeHelperParam(f *ssa.Function) int {
+	if f == nil || f.Blocks == nil || !fnInModule(f) {
+		return -1
+	}
+	for _, ci := range callsIn(f) {
+		cn := calleeName(ci)
+		if cn != "encoding/json.Unmarshal" && cn != "(*encoding/json.Decoder).Decode" {
+			continue
+		}
+		args := ci.Common().Args
+		t := args[len(args)-1]
+		if mi, ok := t.(*ssa.MakeInterface); ok {
+			t = mi.X
+		}
+		if prm, ok := unspill(t).(*ssa.Parameter); ok {
+			for i, fp := range f.Params {
+				if fp == prm {
+					return i
+				}
+			}
+		}
+	}
+	return -1
 }
